@@ -159,31 +159,49 @@ class Check:
             self.proof_broken = (what, detail)
 
     # -------------------------------------------------------------------------- line protocol
-    def run_lines(self, binary, mode, cases, timeout=1800, extra_args=()):
-        """cases: list of (id, payload) -> dict id -> result. Survives crashes of the binary by bisecting."""
+    def run_lines(self, binary, mode, cases, timeout=1800, extra_args=(), case_timeout=120):
+        """cases: list of (id, payload) -> dict id -> result.  Survives crashes and hangs of the binary: a case that
+        produces no answer within `case_timeout` seconds is recorded as TIMEOUT and the run resumes behind it."""
+        import tempfile, select, time as _time
         results = {}
         pending = list(cases)
+        t_end = _time.time() + timeout
         while pending:
-            inp = "".join("%s\t%s\n" % (i, p) for i, p in pending)
-            try:
-                p = subprocess.run([binary, mode, *extra_args], input=inp, stdout=subprocess.PIPE, stderr=subprocess.PIPE,
-                                   text=True, timeout=timeout, env=ENV)
-                out, rc = p.stdout, p.returncode
-            except subprocess.TimeoutExpired as e:
-                out, rc = (e.stdout or b"").decode("utf-8", "replace") if isinstance(e.stdout, bytes) else (e.stdout or ""), -9
-            done = 0
-            for line in out.splitlines():
-                if "\t" not in line:
-                    continue
-                i, r = line.split("\t", 1)
-                results[i] = r
-                done += 1
+            with tempfile.TemporaryFile(mode="w+", dir=WORK) as tf:
+                tf.write("".join("%s\t%s\n" % (i, p) for i, p in pending))
+                tf.flush()
+                tf.seek(0)
+                proc = subprocess.Popen([binary, mode, *extra_args], stdin=tf, stdout=subprocess.PIPE, stderr=subprocess.DEVNULL, env=ENV)
+                done, buf, hung = 0, b"", False
+                fd = proc.stdout.fileno()
+                while True:
+                    r, _, _ = select.select([fd], [], [], case_timeout)
+                    if not r or _time.time() > t_end:
+                        hung = True
+                        proc.kill()
+                        break
+                    chunk = os.read(fd, 1 << 16)
+                    if not chunk:
+                        break
+                    buf += chunk
+                    while b"\n" in buf:
+                        line, buf = buf.split(b"\n", 1)
+                        line = line.decode("utf-8", "replace")
+                        if "\t" in line:
+                            i, rr = line.split("\t", 1)
+                            results[i] = rr
+                            done += 1
+                proc.wait()
+                rc = proc.returncode
             if done >= len(pending):
                 break
-            # the binary died on (or hung at) case number `done`
             cid = pending[done][0]
-            results[cid] = "CRASH rc=%s" % rc if rc != -9 else "TIMEOUT"
+            results[cid] = "TIMEOUT" if hung else "CRASH rc=%s" % rc
             pending = pending[done + 1:]
+            if _time.time() > t_end:
+                for cid, _ in pending:
+                    results[cid] = "TIMEOUT"
+                break
         return results
 
     def harness(self, mode, cases, parallel=None, **kw):
